@@ -172,6 +172,16 @@ def run_shape(shape):
         with contextlib.ExitStack() as st:
             for c_ in ctx:
                 st.enter_context(c_)
+            # another full grid of the same process, of OTHER sizes (and the other position mode), is built and asked for everything first
+            try:
+                dec = F.FullGrid(f"{shape['alg_b']}{n_b % 5 + 1}", f"{shape['alg_o']}{n_o % 5 + 3}", _t_string(n_t % 4 + 1), position_grid_cartesian=not cart)
+                for g in GETTERS + POSGETTERS:
+                    try:
+                        getattr(dec, g)()
+                    except Exception:  # noqa: BLE001 - the decoy's own failures are not the subject
+                        pass
+            except Exception:  # noqa: BLE001
+                pass
             for hname, hist in HISTORIES.items():
                 try:
                     fg = F.FullGrid(f"{shape['alg_b']}{n_b}", f"{shape['alg_o']}{n_o}", _t_string(n_t), position_grid_cartesian=cart)
@@ -235,6 +245,15 @@ def replay(cex):
         (f" after {list(hist)} on the same object: " if hist else ".") + f"{g0}()"
     try:
         with cl.redirect_stdout(io.StringIO()):
+            try:       # the decoy of the symbolic run
+                dec = FullGrid(f"{s['alg_b']}{s['n_b'] % 5 + 1}", f"{s['alg_o']}{s['n_o'] % 5 + 3}", _t_string(s["n_t"] % 4 + 1), position_grid_cartesian=not s["cartesian"])
+                for g_ in GETTERS + POSGETTERS:
+                    try:
+                        getattr(dec, g_)()
+                    except Exception:  # noqa: BLE001
+                        pass
+            except Exception:  # noqa: BLE001
+                pass
             fg = FullGrid(f"{s['alg_b']}{s['n_b']}", f"{s['alg_o']}{s['n_o']}", _t_string(s["n_t"]), position_grid_cartesian=s["cartesian"])
             for h in hist:                 # same history as the symbolic run
                 try:
